@@ -20,6 +20,26 @@ fn tokens_exit() {
     }
 }
 
+fn tokens_steps() {
+    // every small entry state of the ServerState step functions (preconditions are applied by the caller of the probe)
+    for op in ["create", "destroy", "release", "release_except_mine", "release_mine"] {
+        for my_tokens in 0..=3 {
+            for cheats in 0..=2 {
+                for n in 0..=3 {
+                    if (op == "release_except_mine" || op == "release_mine") && n != 0 {
+                        continue;
+                    }
+                    let (ok, mt, ch, tok) = redo::verif::jobserver::server_state_step_probe(op, my_tokens, cheats, n);
+                    println!(
+                        "{{\"probe\":\"tokens-steps\",\"op\":\"{}\",\"my_tokens\":{},\"cheats\":{},\"n\":{},\"ok\":{},\"my_tokens_after\":{},\"cheats_after\":{},\"token_bytes\":{}}}",
+                        op, my_tokens, cheats, n, ok, mt, ch, tok
+                    );
+                }
+            }
+        }
+    }
+}
+
 fn deps() {
     match redo::verif::state::deps_probe() {
         Ok(steps) => {
@@ -286,12 +306,13 @@ fn cycles_probe() {
 fn main() {
     match env::args().nth(1).as_deref() {
         Some("tokens-exit") => tokens_exit(),
+        Some("tokens-steps") => tokens_steps(),
         Some("deps") => deps(),
         Some("cycles") => cycles_probe(),
         Some("normpath") => normpath_probe(),
         Some("relpath") => relpath_probe(),
         _ => {
-            eprintln!("usage: redo-replay tokens-exit|deps|cycles|normpath|relpath");
+            eprintln!("usage: redo-replay tokens-exit|tokens-steps|deps|cycles|normpath|relpath");
             std::process::exit(2);
         }
     }
